@@ -81,8 +81,9 @@ impl<'t> Gen<'t> {
         for _ in 0..nfuncs {
             self.function(&scope);
         }
+        let at = self.t.pos();
         let n = 1 + self.t.draw(8);
-        let mut main = self.block(&scope, n);
+        let mut main = self.block(&scope, n, at);
         if self.t.chance(1, 6) {
             let d = self.die_kind();
             main.push(Op::Die(d));
@@ -133,8 +134,9 @@ impl<'t> Gen<'t> {
             continue_ok: false,
             depth: 1,
         };
+        let at = self.t.pos();
         let n = 1 + self.t.draw(4);
-        let mut body = self.block(&scope, n);
+        let mut body = self.block(&scope, n, at);
         if self.t.chance(5, 6) {
             let r = self.ret(&scope);
             body.push(Op::Return(r));
@@ -236,10 +238,13 @@ impl<'t> Gen<'t> {
         }
     }
 
-    fn block(&mut self, s: &Scope, n: u32) -> Vec<Op> {
+    /// `count_at`: tape index at which `n` was drawn
+    fn block(&mut self, s: &Scope, n: u32, count_at: usize) -> Vec<Op> {
         let mut ops = Vec::new();
         for _ in 0..n {
+            let start = self.t.pos();
             self.op(s, &mut ops);
+            self.t.element(start, count_at);
         }
         ops
     }
@@ -247,7 +252,9 @@ impl<'t> Gen<'t> {
     fn op(&mut self, s: &Scope, ops: &mut Vec<Op>) {
         let can_nest = s.depth < 3;
         let can_loop = s.loop_depth < 2 && s.depth < 3;
-        let can_call = !s.in_func && !self.funcs.is_empty();
+        // a function body may call functions defined before it (never itself:
+        // it is not in the list yet), so I/O also happens in nested calls
+        let can_call = !self.funcs.is_empty();
         // weights; index 0 (say literal) is the plain choice
         let w = [
             6,                                // 0 say literal
@@ -295,18 +302,20 @@ impl<'t> Gen<'t> {
                 let d = self.dest(s);
                 ops.push(Op::AssignLit(d, self.lit()))
             }
-            7 => ops.push(Op::Filler(self.t.draw(6))),
+            7 => ops.push(Op::Filler(self.t.draw(11))),
             8 => {
                 let cond = self.cond(s);
                 let mut inner = s.clone();
                 inner.depth += 1;
+                let at = self.t.pos();
                 let n = 1 + self.t.draw(3);
-                let mut then = self.block(&inner, n);
+                let mut then = self.block(&inner, n, at);
                 // if/else inside a function body terminates the function
                 // block on this tree; only generate else at top level
                 let mut els = if !s.in_func && self.t.chance(1, 2) {
+                    let at = self.t.pos();
                     let n = 1 + self.t.draw(3);
-                    Some(self.block(&inner, n))
+                    Some(self.block(&inner, n, at))
                 } else {
                     None
                 };
@@ -333,8 +342,9 @@ impl<'t> Gen<'t> {
                 inner.loop_depth += 1;
                 inner.continue_ok = true;
                 inner.counters.push(counter);
+                let at = self.t.pos();
                 let n = 1 + self.t.draw(3);
-                let body = self.block(&inner, n);
+                let body = self.block(&inner, n, at);
                 ops.push(Op::Repeat {
                     counter,
                     n: 1 + self.t.draw(3) as i64,
@@ -347,17 +357,18 @@ impl<'t> Gen<'t> {
                 inner.depth += 1;
                 inner.loop_depth += 1;
                 inner.strs.push(line);
+                let at = self.t.pos();
                 let n = 1 + self.t.draw(3);
                 if self.t.chance(1, 2) {
                     inner.continue_ok = false;
-                    let mut body = self.block(&inner, n);
+                    let mut body = self.block(&inner, n, at);
                     if self.t.chance(1, 2) {
                         body.insert(0, Op::SayVar(VarRef::Plain(line)));
                     }
                     ops.push(Op::ListenLoop { line, body })
                 } else {
                     inner.continue_ok = true;
-                    let mut body = self.block(&inner, n);
+                    let mut body = self.block(&inner, n, at);
                     if self.t.chance(1, 2) {
                         body.insert(0, Op::SayVar(VarRef::Plain(line)));
                     }
